@@ -32,23 +32,23 @@ theorem diskIndex_noLog_base (F : FS) : diskIndex (noLog F) = snapBase F := by
   rfl
 
 /-- `NewDBidx` on a directory whose log is discarded leaves what it would leave on the directory without the log -/
-theorem open_state_discard (F : FS) (opts : Opts) (hd : LogDiscarded F) :
-    OpenState (noLog F) (openIndex { fs := F, volatile := false, opts := opts }) := by
-  have A := loaddat_state F opts
+theorem open_state_discard (F : FS) (vol : Bool) (opts : Opts) (hd : LogDiscarded F) :
+    OpenState (noLog F) vol (openIndex { fs := F, volatile := vol, opts := opts }) := by
+  have A := loaddat_state F vol opts
   obtain ⟨f, hf1, hf2⟩ := hd
   unfold openIndex
   dsimp only
-  have hB : loadlog (loaddat { fs := F, volatile := false, opts := opts }).1
-        (loaddat { fs := F, volatile := false, opts := opts }).2 =
-      (emit (loaddat { fs := F, volatile := false, opts := opts }).1 "qdb.loadlog:removed" .removeLog,
-       (loaddat { fs := F, volatile := false, opts := opts }).2) := by
+  have hB : loadlog (loaddat { fs := F, volatile := vol, opts := opts }).1
+        (loaddat { fs := F, volatile := vol, opts := opts }).2 =
+      (emit (loaddat { fs := F, volatile := vol, opts := opts }).1 "qdb.loadlog:removed" .removeLog,
+       (loaddat { fs := F, volatile := vol, opts := opts }).2) := by
     unfold loadlog
     rw [A.log, hf1]
     simp only [A.verSeq, hf2]
   rw [hB]
   dsimp only
-  generalize (loaddat { fs := F, volatile := false, opts := opts }).1 = a at A
-  generalize (loaddat { fs := F, volatile := false, opts := opts }).2 = used at A
+  generalize (loaddat { fs := F, volatile := vol, opts := opts }).1 = a at A
+  generalize (loaddat { fs := F, volatile := vol, opts := opts }).2 = used at A
   let b := emit a "qdb.loadlog:removed" .removeLog
   have b_fs0 : b.fs.idx0 = a.fs.idx0 := rfl
   have b_fs1 : b.fs.idx1 = a.fs.idx1 := rfl
@@ -67,7 +67,7 @@ theorem open_state_discard (F : FS) (opts : Opts) (hd : LogDiscarded F) :
   have hoth : ∀ j, otherIdx (cleanupold b used).fs j = otherIdx a.fs j := by
     intro j; unfold otherIdx; rw [c0, c1, b_fs0, b_fs1]
   have hDI : diskIndex (noLog F) = snapBase F := diskIndex_noLog_base F
-  show OpenState (noLog F) (cleanupold b used)
+  show OpenState (noLog F) vol (cleanupold b used)
   constructor
   · rw [hDI]; exact hfr.index.trans A.index
   · exact hfr.failed.trans A.failed
@@ -97,7 +97,7 @@ theorem open_state_discard (F : FS) (opts : Opts) (hd : LogDiscarded F) :
 theorem open_inv3g (F : FS) (opts : Opts) (h : OpenOK F)
     (hmax : (openIndex { fs := F, volatile := false, opts := opts }).maxSeq + 1 < 2^32) :
     Inv3 (openDB F false true opts) ∧ (openDB F false true opts).pending = [] := by
-  have key : ∀ (F' : FS) (S : OpenState F' (openIndex { fs := F, volatile := false, opts := opts }))
+  have key : ∀ (F' : FS) (S : OpenState F' false (openIndex { fs := F, volatile := false, opts := opts }))
       (E : List LogEntry) (hE : ∀ e ∈ E, EntryFits e) (hlog : LogState F' (snapVer F') E) (hsv : snapVer F' < 2^32)
       (hR : DirReadable F'), Inv3 (openDB F false true opts) ∧ (openDB F false true opts).pending = [] := by
     intro F' S E hE hlog hsv hR
@@ -112,12 +112,12 @@ theorem open_inv3g (F : FS) (opts : Opts) (h : OpenOK F)
     rw [hopen]
     exact ⟨h3, S.pending⟩
   rcases h.log with ⟨E, hE, hlog⟩ | hd
-  · exact key F (open_state F opts E hE hlog h.ver) E hE hlog h.ver h.readable
+  · exact key F (open_state F false opts E hE hlog h.ver) E hE hlog h.ver h.readable
   · have hR : DirReadable (noLog F) := by
       intro kr hkr
       rw [diskIndex_noLog F hd] at hkr
       exact h.readable kr hkr
-    exact key (noLog F) (open_state_discard F opts hd) [] (fun e he => by cases he) (Or.inl ⟨rfl, rfl⟩)
+    exact key (noLog F) (open_state_discard F false opts hd) [] (fun e he => by cases he) (Or.inl ⟨rfl, rfl⟩)
       (by rw [snapVer_noLog]; exact h.ver) hR
 
 /-- values after NewDBExt on an openable directory -/
@@ -260,37 +260,37 @@ theorem cleanupold_effs (db : DB) (used : List Nat) :
   exact this _ db
 
 /-- every file operation of NewDBExt on `F` is one of the removals `TrimEff F` -/
-theorem open_effs_trim (F : FS) (load : Bool) (opts : Opts) :
-    ∀ e ∈ (openDB F false load opts).effs, TrimEff F e.2 := by
-  have A := loaddat_state F opts
+theorem open_effs_trim (F : FS) (vol load : Bool) (opts : Opts) :
+    ∀ e ∈ (openDB F vol load opts).effs, TrimEff F e.2 := by
+  have A := loaddat_state F vol opts
   -- loaddat
-  have ha : ∀ e ∈ (loaddat { fs := F, volatile := false, opts := opts }).1.effs, TrimEff F e.2 := by
+  have ha : ∀ e ∈ (loaddat { fs := F, volatile := vol, opts := opts }).1.effs, TrimEff F e.2 := by
     unfold loaddat
     cases hp : pickIdx F with
     | none =>
-      simp only [show ({ fs := F, volatile := false, opts := opts } : DB).fs = F from rfl, hp]
+      simp only [show ({ fs := F, volatile := vol, opts := opts } : DB).fs = F from rfl, hp]
       intro e he; cases he
     | some t =>
       obtain ⟨i, sv, d⟩ := t
-      simp only [show ({ fs := F, volatile := false, opts := opts } : DB).fs = F from rfl, hp]
+      simp only [show ({ fs := F, volatile := vol, opts := opts } : DB).fs = F from rfl, hp]
       rw [memputAll_effs]
       intro e he
       have : e = ("qdb.loadneweridx:removed", Effect.removeIdx (1 - i)) := by simpa [emit] using he
       rw [this]
       exact Or.inl ⟨i, sv, d, hp, rfl⟩
   -- cleanupold, load
-  have hopen : (openDB F false load opts).effs =
-      (cleanupold (loadlog (loaddat { fs := F, volatile := false, opts := opts }).1
-        (loaddat { fs := F, volatile := false, opts := opts }).2).1
-        (loadlog (loaddat { fs := F, volatile := false, opts := opts }).1
-        (loaddat { fs := F, volatile := false, opts := opts }).2).2).effs := by
+  have hopen : (openDB F vol load opts).effs =
+      (cleanupold (loadlog (loaddat { fs := F, volatile := vol, opts := opts }).1
+        (loaddat { fs := F, volatile := vol, opts := opts }).2).1
+        (loadlog (loaddat { fs := F, volatile := vol, opts := opts }).1
+        (loaddat { fs := F, volatile := vol, opts := opts }).2).2).effs := by
     unfold openDB openIndex
     cases load
     · rfl
     · simp only [↓reduceIte]
       exact loadAll_effs _
-  generalize (loaddat { fs := F, volatile := false, opts := opts }).1 = a at A ha hopen
-  generalize (loaddat { fs := F, volatile := false, opts := opts }).2 = useda at A hopen
+  generalize (loaddat { fs := F, volatile := vol, opts := opts }).1 = a at A ha hopen
+  generalize (loaddat { fs := F, volatile := vol, opts := opts }).2 = useda at A hopen
   -- loadlog
   have hb : (∀ e ∈ (loadlog a useda).1.effs, TrimEff F e.2) ∧
       ∀ kr ∈ diskIndex F, (loadlog a useda).2.contains kr.2.seq = true := by
@@ -393,11 +393,12 @@ theorem sync_logWritten3 (db : DB) (h : Inv3 db) (hp : db.pending.isEmpty = fals
     ∃ L, sync db = (if L.extra > L.opts.forcedPerc * L.need / 100 then defrag L else L) ∧
       Inv3 L ∧ absv L = absv db ∧ L.pending = [] ∧
       (∃ es, L.effs = db.effs ++ es ∧ es.map (·.2) = syncEffs db) ∧
-      L.fs = db.fs.applyAll (syncEffs db) ∧ L.dataSeq = db.dataSeq := by
+      L.fs = db.fs.applyAll (syncEffs db) ∧ L.dataSeq = db.dataSeq ∧
+      L = logWritten (db.pending.foldl syncKey (checkDat db, [])).1 (db.pending.foldl syncKey (checkDat db, [])).2 := by
   have inv := h.inv
   have i2 := h.i2
-  obtain ⟨L, hL, invL, absL, pL, _, hes, _, hfs, b1, b2, b3, b4, b5, b6⟩ := sync_logWritten db inv hp hs.1
-  refine ⟨L, hL, ⟨invL, ?_⟩, absL, pL, hes, hfs, b3⟩
+  obtain ⟨L, hL, invL, absL, pL, _, hes, _, hfs, b1, b2, b3, b4, b5, b6, b7⟩ := sync_logWritten db inv hp hs.1
+  refine ⟨L, hL, ⟨invL, ?_⟩, absL, pL, hes, hfs, b3, b7⟩
   constructor
   · unfold idxFile; rw [b1, b4, b5]; exact i2.free
   · unfold otherIdx; rw [b1, b2, b4, b5]; exact i2.other
@@ -422,7 +423,7 @@ theorem sync_part_atomic (db : DB) (h : Inv3 db) (hp : db.pending.isEmpty = fals
   by_cases hn : n < (syncEffs db).length
   · exact ⟨sync_prefix_ok db h.inv n hn, Or.inl (sync_prefix db h.inv n hn).2⟩
   · rw [List.take_of_length_le (by omega)]
-    obtain ⟨L, _, h3L, absL, pL, _, hfs, _⟩ := sync_logWritten3 db h hp hs
+    obtain ⟨L, _, h3L, absL, pL, _, hfs, _, _⟩ := sync_logWritten3 db h hp hs
     rw [← hfs]
     refine ⟨openOK_of_inv L h3L.inv, Or.inr (fun k => ?_)⟩
     rw [diskValue_of_inv L h3L.inv pL k]; unfold vals; rw [absL]
@@ -436,17 +437,19 @@ structure DFits (db : DB) : Prop where
 theorem dFits_iff (db : DB) : DFits db ↔ (db.dataSeq + 1 < 2^32 ∧ 16 + 24 * db.index.length ≤ bufSize) :=
   ⟨fun h => ⟨h.seq, h.small⟩, fun h => ⟨h.1, h.2⟩⟩
 
-theorem defrag_atomic (L : DB) (h : Inv3 L) (hsm : 4 + (valsOf L.index).flatten.length < 2^32) (hd : DFits L) :
-    ∃ es, (defrag L).effs = L.effs ++ es ∧ Atomic L.fs (es.map (·.2)) (vals L) := by
+theorem defragReady_of (L : DB) (h : Inv3 L) (hsm : 4 + (valsOf L.index).flatten.length < 2^32) (hd : DFits L) :
+    DefragReady L := by
   obtain ⟨E, hEf, hE⟩ := h.inv.logst
-  have hready : DefragReady L := by
-    refine ⟨h.inv.cached, ⟨h.inv.cached.2, h.inv.wf, h.inv.nodup, hsm⟩, h.i2.free, ⟨h.i2.other, E, hE⟩, h.inv.verlt,
-      fun kr hkr => ⟨h.inv.dflags kr hkr, h.inv.dreads kr hkr⟩, ?_, ⟨E, hEf, hE⟩, h.inv.ver, ?_⟩
-    · intro kr hkr
-      have := h.i2.seqs kr hkr
-      have hu : u32 (L.dataSeq + 1) = L.dataSeq + 1 := Nat.mod_eq_of_lt hd.seq
-      rw [hu]; omega
-    · rw [snapBytes_length, layout_length]; exact hd.small
+  refine ⟨h.inv.cached, ⟨h.inv.cached.2, h.inv.wf, h.inv.nodup, hsm⟩, h.i2.free, ⟨h.i2.other, E, hE⟩, h.inv.verlt,
+    fun kr hkr => ⟨h.inv.dflags kr hkr, h.inv.dreads kr hkr⟩, ?_, ⟨E, hEf, hE⟩, h.inv.ver, ?_⟩
+  · intro kr hkr
+    have := h.i2.seqs kr hkr
+    have hu : u32 (L.dataSeq + 1) = L.dataSeq + 1 := Nat.mod_eq_of_lt hd.seq
+    rw [hu]; omega
+  · rw [snapBytes_length, layout_length]; exact hd.small
+
+theorem defrag_atomic' (L : DB) (hready : DefragReady L) :
+    ∃ es, (defrag L).effs = L.effs ++ es ∧ Atomic L.fs (es.map (·.2)) (vals L) := by
   obtain ⟨es, he, hall⟩ := defrag_prefix L hready
   refine ⟨es, he, fun n => ?_⟩
   obtain ⟨o, v⟩ := hall n
@@ -454,6 +457,10 @@ theorem defrag_atomic (L : DB) (h : Inv3 L) (hsm : 4 + (valsOf L.index).flatten.
   rcases v with v | v
   · exact Or.inl v
   · exact Or.inr (fun k => by rw [v k, vals_eq])
+
+theorem defrag_atomic (L : DB) (h : Inv3 L) (hsm : 4 + (valsOf L.index).flatten.length < 2^32) (hd : DFits L) :
+    ∃ es, (defrag L).effs = L.effs ++ es ∧ Atomic L.fs (es.map (·.2)) (vals L) :=
+  defrag_atomic' L (defragReady_of L h hsm hd)
 
 /-- all crash points of sync() (log write and a possible forced defrag included) -/
 theorem sync_atomic (db : DB) (h : Inv3 db) (hs : SizeOK db) (hd : DFits db) :
@@ -472,7 +479,7 @@ theorem sync_atomic (db : DB) (h : Inv3 db) (hs : SizeOK db) (hd : DFits db) :
     rw [this]
     exact atomic_nil _ _ (openOK_of_inv db h.inv)
   | false =>
-    obtain ⟨L, hL, h3L, absL, pL, ⟨es1, hes1, hes1m⟩, hfs, hds⟩ := sync_logWritten3 db h hp hs
+    obtain ⟨L, hL, h3L, absL, pL, ⟨es1, hes1, hes1m⟩, hfs, hds, _⟩ := sync_logWritten3 db h hp hs
     have hA := sync_part_atomic db h hp hs
     by_cases hc : L.extra > L.opts.forcedPerc * L.need / 100
     · rw [if_pos hc] at hL
@@ -649,7 +656,7 @@ theorem step_crash (db : DB) (h : Inv3 db) (op : Op) (ok : OpOK2 op) (fits : OpF
     have T := (Trim.refl (sync db).fs).applyAll (((openDB (sync db).fs false true opts).effs.map (·.2)).take n)
       (fun e he => by
         obtain ⟨x, hx, rfl⟩ := List.mem_map.mp (List.mem_of_mem_take he)
-        exact open_effs_trim _ _ _ x hx)
+        exact open_effs_trim _ _ _ _ x hx)
     obtain ⟨o, v⟩ := T.ok (openOK_of_inv (sync db) sinv)
     exact ⟨o, Or.inl v⟩
 
@@ -662,7 +669,7 @@ theorem recrash_ok (opts : Opts) (ms : List Nat) (F : FS) (h : OpenOK F) :
     have T := (Trim.refl F).applyAll (((openDB F false true opts).effs.map (·.2)).take m)
       (fun e he => by
         obtain ⟨x, hx, rfl⟩ := List.mem_map.mp (List.mem_of_mem_take he)
-        exact open_effs_trim _ _ _ x hx)
+        exact open_effs_trim _ _ _ _ x hx)
     obtain ⟨o, v⟩ := T.ok h
     obtain ⟨o2, v2⟩ := ih _ o
     exact ⟨o2, fun k => (v2 k).trans (v k)⟩
@@ -675,33 +682,6 @@ def mustSync : Op → Bool
   | .defrag true => true
   | .reopen _ _ _ => true
   | _ => false
-
-/-- The durable-map specification along a history with crashes. `m` is the in-memory map, `d` the durable one (what a
-    reopen would find). An operation changes `m` as on a plain map (`vstep`); the durable map either stays or becomes
-    the complete new in-memory map — it MUST become it for Sync, Defrag(true) and Close+reopen. A crash inside an
-    operation loses the in-memory map: the store continues with the durable map from before the operation or with
-    the complete map after it, never a mixture, and that is then durable. `DurOK m d H m' d'`: the history `H` can
-    lead from `(m, d)` to `(m', d')`. -/
-def DurOK : (Key → Option Bytes) → (Key → Option Bytes) → List HItem →
-    (Key → Option Bytes) → (Key → Option Bytes) → Prop
-  | m, d, [], m', d' => m' = m ∧ d' = d
-  | m, d, .op o :: t, m', d' =>
-      DurOK (vstep m o) (vstep m o) t m' d' ∨ (mustSync o = false ∧ DurOK (vstep m o) d t m' d')
-  | m, d, .crash o _ _ _ :: t, m', d' => DurOK d d t m' d' ∨ DurOK (vstep m o) (vstep m o) t m' d'
-
-def HOK : HItem → Prop
-  | .op o => OpOK2 o
-  | .crash o _ _ _ => OpOK2 o
-
-/-- side conditions along a history: those of every operation (`OpFits2`), the bounds of the crash analysis
-    (`DFits`: data-file numbers do not wrap, index snapshot below the 1 MiB bufio buffer) and, for every recovery,
-    that the data-file numbers found on disk do not wrap -/
-def HFits : DB → List HItem → Prop
-  | _, [] => True
-  | db, .op o :: t => OpFits2 db o ∧ DFits (preSync db o) ∧ HFits (step db o) t
-  | db, .crash o n ms opts :: t => OpFits2 db o ∧ DFits (preSync db o) ∧
-      (openIndex { fs := recrash opts (crashDir db o n) ms, volatile := false, opts := opts }).maxSeq + 1 < 2^32 ∧
-      HFits (hstep db (.crash o n ms opts)) t
 
 /-- after Sync, Defrag(true) and Close+reopen nothing is pending -/
 theorem mustSync_pending (db : DB) (h : Inv3 db) (op : Op) (ok : OpOK2 op) (fits : OpFits2 db op)
@@ -777,119 +757,5 @@ theorem vstep_origin (m : Key → Option Bytes) (o : Op) (k : Key) (v : Bytes) (
   | sync => exact Or.inl h
   | noSync => exact Or.inl h
   | reopen _ _ _ => exact Or.inl h
-
-/-- Under the specification, every value the store holds at the end (in memory or durably) was held at the start or
-    was written by a Put / PutExt of the history (possibly the one the process died in). -/
-theorem durOK_origin (H : List HItem) (m d m' d' : Key → Option Bytes) (h : DurOK m d H m' d') (k : Key) (v : Bytes)
-    (hv : m' k = some v ∨ d' k = some v) :
-    m k = some v ∨ d k = some v ∨ ∃ i ∈ H, writes (itemOp i) k v := by
-  induction H generalizing m d with
-  | nil =>
-    obtain ⟨rfl, rfl⟩ := h
-    rcases hv with hv | hv
-    · exact Or.inl hv
-    · exact Or.inr (Or.inl hv)
-  | cons i t ih =>
-    have lift : (∃ j ∈ t, writes (itemOp j) k v) → ∃ j ∈ i :: t, writes (itemOp j) k v :=
-      fun ⟨j, hj, hw⟩ => ⟨j, List.mem_cons_of_mem _ hj, hw⟩
-    have here : ∀ o, itemOp i = o → (vstep m o k = some v) →
-        m k = some v ∨ d k = some v ∨ ∃ j ∈ i :: t, writes (itemOp j) k v := by
-      intro o ho hs
-      rcases vstep_origin m o k v hs with h1 | h1
-      · exact Or.inl h1
-      · exact Or.inr (Or.inr ⟨i, List.mem_cons_self, by rw [ho]; exact h1⟩)
-    cases i with
-    | op o =>
-      rcases h with h | ⟨_, h⟩
-      · rcases ih _ _ h with r | r | r
-        · exact here o rfl r
-        · exact here o rfl r
-        · exact Or.inr (Or.inr (lift r))
-      · rcases ih _ _ h with r | r | r
-        · exact here o rfl r
-        · exact Or.inr (Or.inl r)
-        · exact Or.inr (Or.inr (lift r))
-    | crash o n ms opts =>
-      rcases h with h | h
-      · rcases ih _ _ h with r | r | r
-        · exact Or.inr (Or.inl r)
-        · exact Or.inr (Or.inl r)
-        · exact Or.inr (Or.inr (lift r))
-      · rcases ih _ _ h with r | r | r
-        · exact here o rfl r
-        · exact here o rfl r
-        · exact Or.inr (Or.inr (lift r))
-
-/-- EVERY history of operations and crashes (anywhere inside any operation, and inside any number of recovery
-    attempts) keeps the invariants and follows the durable-map specification. -/
-theorem hrun_dur (H : List HItem) (db : DB) (h : Inv3 db) (ok : ∀ i ∈ H, HOK i) (fits : HFits db H) :
-    Inv3 (hrun db H) ∧
-    DurOK (vals db) (diskValue db.fs) H (vals (hrun db H)) (diskValue (hrun db H).fs) := by
-  induction H generalizing db with
-  | nil => exact ⟨h, rfl, rfl⟩
-  | cons i t ih =>
-    cases i with
-    | op o =>
-      have oko : OpOK2 o := ok (.op o) List.mem_cons_self
-      obtain ⟨f1, f2, f3⟩ := fits
-      obtain ⟨h1, hv⟩ := step_inv3' db h o oko f1
-      have hv' : vals (step db o) = vstep (vals db) o := funext hv
-      obtain ⟨es, _, e2, A⟩ := step_crash db h o oko f1 f2
-      obtain ⟨i1, i2⟩ := ih (step db o) h1 (fun x hx => ok x (List.mem_cons_of_mem _ hx)) f3
-      refine ⟨i1, ?_⟩
-      show DurOK (vstep (vals db) o) (vstep (vals db) o) t _ _ ∨
-        (mustSync o = false ∧ DurOK (vstep (vals db) o) (diskValue db.fs) t _ _)
-      have hfin := (A (es.map (·.2)).length).2
-      rw [List.take_length, ← e2] at hfin
-      have hnew : (∀ k, diskValue (step db o).fs k = vals (step db o) k) →
-          DurOK (vstep (vals db) o) (vstep (vals db) o) t (vals (hrun (step db o) t))
-            (diskValue (hrun (step db o) t).fs) := by
-        intro hn
-        have : diskValue (step db o).fs = vals (step db o) := funext hn
-        rw [this, hv'] at i2
-        exact i2
-      cases hm : mustSync o with
-      | true =>
-        exact Or.inl (hnew (fun k => diskValue_of_inv _ h1.inv (mustSync_pending db h o oko f1 hm) k))
-      | false =>
-        rcases hfin with hold | hn
-        · refine Or.inr ⟨rfl, ?_⟩
-          have : diskValue (step db o).fs = diskValue db.fs := funext hold
-          rw [this, hv'] at i2
-          exact i2
-        · exact Or.inl (hnew hn)
-    | crash o n ms opts =>
-      have oko : OpOK2 o := ok (.crash o n ms opts) List.mem_cons_self
-      obtain ⟨f1, f2, f3, f4⟩ := fits
-      obtain ⟨_, hv⟩ := step_inv3' db h o oko f1
-      have hv' : vals (step db o) = vstep (vals db) o := funext hv
-      obtain ⟨es, e1, _, A⟩ := step_crash db h o oko f1 f2
-      have hcd : crashDir db o n = db.fs.applyAll ((es.map (·.2)).take n) := by
-        unfold crashDir opEffs
-        rw [e1, List.drop_left]
-      obtain ⟨o1, v1⟩ := A n
-      rw [← hcd] at o1 v1
-      obtain ⟨o2, v2⟩ := recrash_ok opts ms _ o1
-      obtain ⟨h3, hp⟩ := open_inv3g _ opts o2 f3
-      have hval : ∀ k, vals (hstep db (.crash o n ms opts)) k = diskValue (recrash opts (crashDir db o n) ms) k :=
-        fun k => open_vals _ opts o2 k
-      have hdur : ∀ k, diskValue (hstep db (.crash o n ms opts)).fs k = vals (hstep db (.crash o n ms opts)) k :=
-        fun k => diskValue_of_inv _ h3.inv hp k
-      obtain ⟨i1, i2⟩ := ih (hstep db (.crash o n ms opts)) h3 (fun x hx => ok x (List.mem_cons_of_mem _ hx)) f4
-      refine ⟨i1, ?_⟩
-      show DurOK (diskValue db.fs) (diskValue db.fs) t _ _ ∨ DurOK (vstep (vals db) o) (vstep (vals db) o) t _ _
-      have hd' : diskValue (hstep db (.crash o n ms opts)).fs = vals (hstep db (.crash o n ms opts)) := funext hdur
-      rw [hd'] at i2
-      rcases v1 with hold | hn
-      · left
-        have : vals (hstep db (.crash o n ms opts)) = diskValue db.fs :=
-          funext (fun k => (hval k).trans ((v2 k).trans (hold k)))
-        rw [this] at i2
-        exact i2
-      · right
-        have : vals (hstep db (.crash o n ms opts)) = vstep (vals db) o :=
-          funext (fun k => (hval k).trans ((v2 k).trans ((hn k).trans (hv k))))
-        rw [this] at i2
-        exact i2
 
 end GocoinV.Proofs.C19
